@@ -632,13 +632,11 @@ Section Layout.
   Lemma sinv_closed_fields st : SInv st -> strm st = None -> Inv st [].
   Proof. intros [I A] Hs. rewrite (A Hs) in I. exact I. Qed.
 
-  Lemma write_compressed_inv st rs os big st' :
-    SInv st -> write_compressed rs os big st = Ok st' -> SInv st' /\ closed st' = closed st /\ xtab st' = xtab st.
+  Lemma wc_one_inv st rs os big st' :
+    SInv st -> strm st = None -> wc_one fmt fmt_sd encS encB fenc c rs os big st = Ok st' ->
+    SInv st' /\ strm st' = None /\ closed st' = closed st /\ xtab st' = xtab st.
   Proof.
-    intros SI H. unfold Writer.write_compressed in H. destruct (strm st) eqn:Hs; [discriminate|].
-    destruct (negb (check_compressed rs os)); [discriminate|].
-    destruct os as [|o os]; [injection H as <-; auto|].
-    destruct (negb (use_objstm c)); [eapply put_all_inv; eassumption|].
+    intros SI Hs H. unfold wc_one in H.
     binv H. destruct a as [sref st1]. binv Hk.
     destruct (objstm_parts _ _ _) as [head body]. binv Hk0.
     destruct (strm a0) eqn:Es; [|discriminate].
@@ -646,7 +644,7 @@ Section Layout.
     destruct (alloc_fields _ _ _ Hb) as [F1 [F2 [F3 [F4 [F5 [F6 [F7 F8]]]]]]].
     pose proof (alloc_inv _ _ _ _ I0 Hb) as I1.
     destruct (set_comp_inv _ _ _ _ _ I1 (eq_trans F4 Hs) Hb0) as [I2 [S2 [A2 [C2 [T2 [W2 [X2 G2]]]]]]].
-    destruct (record_all_inv rs (o :: os) a I2 S2 X2) as [I3 [S3 [A3 [C3 [T3 X3]]]]].
+    destruct (record_all_inv rs os a I2 S2 X2) as [I3 [S3 [A3 [C3 [T3 X3]]]]].
     destruct (open_stream_inv _ _ _ _ _ _ _ I3 Hb1) as [I4 [_ [S4 [A4 C4]]]].
     rewrite S4 in Es. injection Es as <-. cbn in Hk.
     assert (Aa : after a0 = []).
@@ -655,13 +653,35 @@ Section Layout.
     assert (I5 : Inv st5 (after st5)).
     { unfold st5. cbn. rewrite Aa. eapply restrm_inv; [exact I4 | exact S4 | reflexivity | reflexivity]. }
     destruct (close_stream_inv _ _ _ I5 Hk) as [I6 [S6 [C6 [T6 A6]]]].
-    split; [split; auto|].
+    split; [split; auto|]. split; [exact S6|].
     unfold st5 in C6, T6. cbn in C6, T6.
-    assert (T4 : xtab a0 = xtab (record_all rs (o :: os) a)).
+    assert (T4 : xtab a0 = xtab (record_all rs os a)).
     { unfold open_stream in Hb1. rewrite S3 in Hb1. binv Hb1. unfold set_xref in Hb2.
-      destruct (xlookup sref (xref (record_all rs (o :: os) a))); [discriminate|]. injection Hb2 as <-.
+      destruct (xlookup sref (xref (record_all rs os a))); [discriminate|]. injection Hb2 as <-.
       destruct (dict_get k_Length _) as [[]|]; try discriminate; injection Hk0 as <-; reflexivity. }
     split; congruence.
+  Qed.
+
+  Lemma wc_chunks_inv fuel : forall st rs os bigs st',
+    SInv st -> strm st = None -> wc_chunks fmt fmt_sd encS encB fenc c fuel rs os bigs st = Ok st' ->
+    SInv st' /\ strm st' = None /\ closed st' = closed st /\ xtab st' = xtab st.
+  Proof.
+    induction fuel as [|f IH]; intros st rs os bigs st' SI Hs H; cbn [wc_chunks] in H; [discriminate|].
+    destruct (Nat.ltb _ _).
+    - binv H. destruct (wc_one_inv _ _ _ _ _ SI Hs Hb) as [S1 [N1 [C1 T1]]].
+      destruct (IH _ _ _ _ _ S1 N1 Hk) as [S2 [N2 [C2 T2]]].
+      split; [exact S2|]. split; [exact N2|]. split; congruence.
+    - eapply wc_one_inv; eassumption.
+  Qed.
+
+  Lemma write_compressed_inv st rs os bigs st' :
+    SInv st -> write_compressed rs os bigs st = Ok st' -> SInv st' /\ closed st' = closed st /\ xtab st' = xtab st.
+  Proof.
+    intros SI H. unfold Writer.write_compressed in H. destruct (strm st) eqn:Hs; [discriminate|].
+    destruct (negb (check_compressed rs os)); [discriminate|].
+    destruct os as [|o os]; [injection H as <-; auto|].
+    destruct (negb (use_objstm c)); [eapply put_all_inv; eassumption|].
+    destruct (wc_chunks_inv _ _ _ _ _ _ SI Hs H) as [S1 [_ [C1 T1]]]. auto.
   Qed.
 
   (* after Close: the serialised table [xtab] is part of the map, and every in-use entry of it
